@@ -113,6 +113,7 @@ class Prog:
         self.tempo = [self.clk.TempoClock(num(t)) for t in case['tempi']]
         self.addr = env['NetAddr']('127.0.0.1', 57110)
         self.gens, self.draw_values, self.draw_diag, self.law, self.saved = {}, [], [], {}, {}
+        self.yar_at = {}
         self.forms = make_forms(env['bi'])
         run = self
 
@@ -198,6 +199,13 @@ class Prog:
                     run.register(main.current_tt._rgen, a[1])
                 elif op == 'draw':
                     run.draw(i, a[1] if len(a) > 1 else 0)
+                elif op == 'log':
+                    # a routine resumed by next() from inside a playing routine reads the caller's logical time
+                    sysc = run.clk.SystemClock
+                    run.events.append(f'L:{i}:{fr(sysc.beats)}:{fr(sysc.seconds - run.start)}')
+                elif op == 'spawn':
+                    r = run.R[a[1]] or run.create(a[1])
+                    r.play(run.clock(a[2]), 0)
         body.__qualname__ = f'sub{i}'
         return body
 
@@ -217,10 +225,39 @@ class Prog:
         def body(inval):
             me, clock = inval
             last = 0.0
-            resumed(0, clock)
+            pseed = None
+            # `yar d` = raise YieldAndReset(d) once: the routine waits d and its function starts over; the restarted
+            # body goes on after the `yar` action (to the script it is a yield)
+            skip = run.yar_at.get(i)
+            resumed(0 if skip is None else skip + 1, clock)
             for k, a in enumerate(script):
                 op = a[0]
-                if op == 'y':
+                if skip is not None and k <= skip:
+                    continue
+                if op == 'yar':
+                    run.yar_at[i] = k
+                    raise stm.YieldAndReset(num(a[1]))
+                elif op == 'pseed':
+                    # one more value of a stream of Pseed(seed, Pwhite(0.0, 1.0)) that this routine pulls between its
+                    # own draws / the routines it makes: the k-th value is the k-th number of that seed, and no
+                    # generator of the program is read or replaced
+                    run.events.append(f'L:{i}:{fr(clock.beats)}:{fr(clock.seconds - run.start)}')
+                    if pseed is None:
+                        from sc3.seq.patterns.filterpatterns import Pseed
+                        from sc3.seq.patterns.valuepatterns import Pwhite
+                        pseed = [stm.stream(Pseed(7 + i, Pwhite(0.0, 1.0))), random.Random(7 + i), 0]
+                    before = {g: v[0].getstate() for g, v in run.gens.items()}
+                    own = main.current_tt._rgen
+                    v, ref = pseed[0].next(), pseed[1].random()
+                    pseed[2] += 1
+                    run.draw_values.append(f'Pseed={v!r}')
+                    changed = [run.gens[g][1] for g in run.gens if run.gens[g][0].getstate() != before[g]]
+                    if v != ref or changed or main.current_tt._rgen is not own:
+                        run.draw_diag.append(f'Pseed({7 + i}, Pwhite(0.0, 1.0)) pulled by routine {i}: value #{pseed[2]} '
+                                             f'is {v!r}, seed {7 + i} gives {ref!r}; generators read meanwhile: '
+                                             f'{changed}; the puller\'s generator object was '
+                                             f'{"kept" if main.current_tt._rgen is own else "replaced"}')
+                elif op == 'y':
                     me, clock = yield num(a[1])
                     resumed(k + 1, clock)
                 elif op == 'hang':
